@@ -96,6 +96,7 @@ func (t *StandardRoundTimer) background(ctx context.Context) {
 	var timerElapsed, cancelTimer chan struct{}
 
 	for {
+		verifRTGate(t, "idle")
 		// Wait for signal to start timer.
 		select {
 		case <-ctx.Done():
@@ -124,6 +125,7 @@ func (t *StandardRoundTimer) background(ctx context.Context) {
 			}
 		}
 
+		verifRTGate(t, "running")
 		// The timer is running.
 		select {
 		case <-ctx.Done():
